@@ -314,6 +314,71 @@ def owner_blacklist_case(ctx, i):
     reader_walk(ctx, case, store, reader.create_from_cap(root.get_readonly_uri()), secrets, t.bare_secrets, {}, real_dirs)
 
 
+def big_directory_case(ctx, i):
+    """A BIG directory (60-90 children, serialized well over 16 KiB) with real sub-directories, listed on ONE client first
+    through its write cap (all nodes kept alive), then through its read cap: nothing handed out may be writeable."""
+    from allmydata.interfaces import IDirectoryNode
+    r = ctx.rng("big", i)
+    tbl = D.CapTable()
+    nm, store = D.make_nodemaker(r)
+    children = {}
+    subdirs = []
+    for k in range(r.choice([60, 70, 90])):
+        roll = r.random()
+        if roll < 0.08:
+            sub_children = {}
+            for j in range(r.choice([0, 1, 3])):
+                cw, cr = tbl.add_pair(D.gen_mutable_pair(r, r.choice(["SSK", "MDMF"])))
+                sub_children["f%d" % j] = (nm.create_from_cap(cw.s), {})
+            n = D.fire(nm.create_new_mutable_directory(sub_children))
+            subdirs.append(n)
+        elif roll < 0.75:
+            cw, cr = tbl.add_pair(D.gen_mutable_pair(r, r.choice(["SSK", "MDMF", "DIR2", "DIR2-MDMF"])))
+            n = nm.create_from_cap(cw.s, r.choice([None, cr.s]))
+        else:
+            w, ro, label = D.gen_child_caps(r, tbl, allow_odd=False)
+            n = nm.create_from_cap(w, ro)
+            if getattr(n, "error", None) is not None:
+                continue
+        children["%s-%03d" % (D.gen_name(r), k)] = (n, D.gen_metadata(r))
+    root = D.fire(nm.create_new_mutable_directory(children))
+    size = len(store[root._node.get_storage_index()])
+    real_dirs = set([root.get_readonly_uri()] + [d_.get_readonly_uri() for d_ in subdirs])
+    case = {"stream": "big", "index": i, "children": len(children), "serialized_bytes": size, "root": root.get_uri()}
+    n_rw = len([1 for n, md in children.values() if n.get_write_uri()])
+    ctx.case(("big", root.get_uri()), kind="big-directory:%d-KiB" % (size // 1024))
+    for same_client in (True, False):
+        client, _ = D.make_nodemaker(ctx.rng("big-client", i, same_client), store=store)
+        alive = []
+        if same_client:
+            stack = [client.create_from_cap(root.get_uri())]
+            while stack:
+                node = stack.pop()
+                alive.append(node)
+                if IDirectoryNode.providedBy(node) and node.get_readonly_uri() in real_dirs:
+                    for rep in range(2):                  # listed twice, as a browsing owner does
+                        kids = D.fire(node.list())
+                    alive.append(kids)
+                    stack.extend(c for c, md in kids.values())
+        stack = [(client.create_from_cap(root.get_readonly_uri()), [])]
+        reached = 0
+        while stack:
+            node, path = stack.pop()
+            reached += 1
+            obs = D.node_obs(node)
+            if obs[1] is not None or (obs[0] != "unknown" and not node.is_readonly()):
+                ctx.oracle_fail("descendant-of-readonly-root-is-writeable",
+                                "big directory (%d children, %d bytes) opened through its read cap %s: node at %r has write authority (%r)"
+                                % (len(children), size, "on the client that had just listed it through the write cap" if same_client else "on a fresh client",
+                                   path, obs[1]), case=dict(case, path=path, same_client=same_client), expected=None, observed=obs[1])
+                break
+            if IDirectoryNode.providedBy(node) and node.get_readonly_uri() in real_dirs:
+                for name, (child, md) in D.fire(node.list()).items():
+                    stack.append((child, path + [name]))
+        ctx.count("big-directory:nodes-reached-readonly", reached)
+    ctx.count("big-directory:children-with-write-cap", n_rw)
+
+
 def tree_case(ctx, i, terms, info):
     r = ctx.rng("tree", i)
     tbl = D.CapTable()
@@ -611,6 +676,8 @@ def run(ctx):
         flat_case(ctx, i, terms, info)
     for i in range(ctx.n(36, 500)):
         owner_blacklist_case(ctx, i)
+    for i in range(ctx.n(2, 12)):
+        big_directory_case(ctx, i)
     known_finding_witness(ctx)
     bad = ctx.coq_check(IMPORTS, terms, preamble=PREAMBLE, tag="c18", shard=max(8, (len(terms) + 6) // 7))
     for ix in bad:
@@ -631,6 +698,8 @@ def replay(ctx, rec):
         tree_case(ctx, case["index"], terms, info)
     elif case.get("stream") == "flat":
         flat_case(ctx, case["index"], terms, info)
+    elif case.get("stream") == "big":
+        big_directory_case(ctx, case["index"])
     elif case.get("stream") == "owner-blacklist":
         owner_blacklist_case(ctx, case["index"])
     elif rec.get("kind") == KNOWN_KIND:
